@@ -67,20 +67,22 @@ theorem c8d_valid_mono {g' g : Graph} (h : c8d_Sub g' g) (cap init : ℚ) (r : L
     C06.ValidRoute g cap init r ∧ routeCost g cap init r = routeCost g' cap init r := by
   obtain ⟨hlen, hhead, hlast, hnd, hfol⟩ := hr
   obtain ⟨c, hc⟩ := Option.isSome_iff_exists.1 hfol
-  have key : C06.follow g cap 0 r.tail 0 init 0 = some c := by
+  rw [Graph.lo_congr_nodes h.nodes 0] at hc
+  have key : C06.follow g cap 0 r.tail (g.lo 0) init 0 = some c := by
     match r, hlen, hhead with
     | a :: j :: rest, _, hhead =>
       simp only [List.head?_cons, Option.some.injEq] at hhead
       subst hhead
       simp only [List.tail_cons] at hc ⊢
-      refine c8d_follow_mono h cap (j :: rest) 0 0 init 0 c ?_ ?_ hc
+      refine c8d_follow_mono h cap (j :: rest) 0 (g.lo 0) init 0 c ?_ ?_ hc
       · intro i hi h0
         subst h0
         rw [List.dropLast_cons_cons, List.nodup_cons] at hnd
         exact hnd.1 hi
       · intro _ heq
         exact hne (by rw [heq])
-  exact ⟨⟨hlen, hhead, hlast, hnd, by rw [key]; rfl⟩, by simp [routeCost, key, hc]⟩
+  exact ⟨⟨hlen, hhead, hlast, hnd, by rw [key]; rfl⟩, by
+    simp [routeCost, key, Graph.lo_congr_nodes h.nodes 0, hc]⟩
 
 /-- the empty tour costs nothing when the depot self-loop is free (or absent) -/
 theorem c8d_routeCost_loop (g : Graph) (cap init : ℚ) (hc00 : C07.arcCost g 0 0 = 0) :
@@ -365,7 +367,7 @@ theorem c8d_bin_min_exists (n : ℕ) (P : Vec → Prop) (f : Vec → ℚ)
     index lists of length ≤ `n + 1` (a decidable check on concrete instances) -/
 theorem c8d_completeGrid_of_check (g : Graph) (hg : C15.Inv g) (cap init : ℚ) (T : List ℚ)
     (h : ∀ r ∈ (List.range (g.nodes.length + 2)).flatMap (ep_listsOfLen g.nodes.length),
-      C06.ValidRoute g cap init r → ∀ t ∈ serviceTimes g 0 0 r.tail, t ∈ T) :
+      C06.ValidRoute g cap init r → ∀ t ∈ serviceTimes g 0 (g.lo 0) r.tail, t ∈ T) :
     CompleteGrid { g := g, T := T } cap init := by
   intro r hr
   obtain ⟨hb, hl⟩ := validRoute_bounds g hg cap init r hr
